@@ -67,6 +67,11 @@ func (x *ctx) failed() bool {
 	defer x.mu.Unlock()
 	return x.sig != ""
 }
+func (x *ctx) sigNow() string {
+	x.mu.Lock()
+	defer x.mu.Unlock()
+	return x.sig
+}
 func (x *ctx) fail(sig, format string, args ...any) {
 	x.mu.Lock()
 	defer x.mu.Unlock()
@@ -267,6 +272,23 @@ type ledger struct {
 	missSig  string // signature to use for a missing delivery (a more specific defect class), "" = delivery/missing
 	closed   bool   // the registration ended (deregistered / topic deleted): nothing more may arrive
 	verified int    // number of observations at the time the closed ledger was verified
+	// slow handler (Service unit): the recorder was blocked when gateIdx entries were expected and handled, and
+	// stays blocked until the end of the history. Its queue holds queueLen events: the entries from
+	// gateIdx+queueLen on may be missing. The ledger is compared once, after the service was closed.
+	gated    bool
+	gateIdx  int
+	queueLen int
+}
+
+// mayMiss lists the expected entries of a blocked handler that its full queue may have refused.
+func (lg *ledger) mayMiss() map[string]int {
+	m := map[string]int{}
+	if lg.gated {
+		for i := lg.gateIdx + lg.queueLen; i < len(lg.exp); i++ {
+			m[lg.exp[i].Msg] = 1
+		}
+	}
+	return m
 }
 
 // verifyLedger compares the observations with the expectation: exactly once, FIFO, right topic,
@@ -432,6 +454,15 @@ func (t *mTopic) prevLevel(id string) int {
 		return s.Level
 	}
 	return 0 // no preceding event with that id: previous level OK (zero EventState)
+}
+
+// prevAlt is the second admissible previous level of the next event with that id: OK when its state may
+// have been forgotten (Optional), -1 if there is no second reading.
+func (t *mTopic) prevAlt(id string) int {
+	if s, ok := t.states[id]; ok && s.Optional && s.Level != 0 {
+		return 0
+	}
+	return -1
 }
 
 // maxLevels returns the max over the required states and the max including optional ones.
